@@ -155,7 +155,8 @@ EndedSet == Range(ended)
 OnlyOps == StartedSet \subseteq ops
 \* ... at most once ...
 AtMostOnce == NoDup(started)
-\* the sparse computation of the live set (used for deep pyramids) is the live set
+\* the sparse computation of the live set (used for deep pyramids) is the live set (a state predicate on the frozen
+\* variables; the configuration modules generated by checks/c01.py assert it as an ASSUME over every configuration)
 SparseAgrees == SLiveSet(acc, apex) = live
 \* ... and only after the callbacks of all its live non-leaf children have completed
 ChildrenFirst == \A i \in DOMAIN started : \A k \in Kids(started[i]) : k \in ops => k \in EndedSet
